@@ -52,6 +52,19 @@ theorem facetLe2_congr {K₁ K₂ : Cx} (h : idVs K₁.cells = idVs K₂.cells) 
   funext f
   rw [facetDeg_congr h]
 
+/-- the cell keys read off `(id, vs)` pairs -/
+theorem map_cellKey_eq_pairs (cells : List Cell) :
+    cells.map cellKey = (idVs cells).map (fun p => sortNat p.2) := by
+  unfold idVs
+  rw [List.map_map]
+  rfl
+
+/-- `noDupCells` only looks at the cells' vertex slots -/
+theorem noDupCells_congr {K₁ K₂ : Cx} (h : idVs K₁.cells = idVs K₂.cells) :
+    noDupCells K₁ = noDupCells K₂ := by
+  unfold noDupCells
+  rw [map_cellKey_eq_pairs, map_cellKey_eq_pairs, h]
+
 theorem idVs_getElem {cs₁ cs₂ : List Cell} (h : idVs cs₁ = idVs cs₂) {k : Nat}
     (h₁ : k < cs₁.length) (h₂ : k < cs₂.length) :
     cs₁[k].id = cs₂[k].id ∧ cs₁[k].vs = cs₂[k].vs := by
@@ -250,7 +263,8 @@ theorem decode_eq (doc : Doc) :
       match tableRows doc with
       | none => none
       | some cvs =>
-        if rowsKnown doc cvs && facetLe2 (rawCx doc.D cvs) && checkL1 (builtCx doc cvs)
+        if rowsKnown doc cvs && facetLe2 (rawCx doc.D cvs) && checkL1 (builtCx doc cvs) &&
+            noDupCells (builtCx doc cvs)
         then some (builtCx doc cvs) else none := by
   unfold decode tableRows
   generalize (List.mapM (m := Option) _ doc.cells) = o
@@ -262,7 +276,8 @@ theorem decode_eq (doc : Doc) :
       match assignNeighbors (rawCx doc.D cvs) with
       | none => none
       | some cells =>
-        if checkL1 { D := doc.D, verts := assignIncident doc.verts cells, cells := cells } = true
+        if (checkL1 { D := doc.D, verts := assignIncident doc.verts cells, cells := cells } &&
+            noDupCells { D := doc.D, verts := assignIncident doc.verts cells, cells := cells }) = true
         then some ({ D := doc.D, verts := assignIncident doc.verts cells, cells := cells } : Cx)
         else none) = _
     rw [assignNeighbors_eq]
@@ -278,7 +293,7 @@ theorem decode_eq_some_iff (doc : Doc) (K : Cx) :
     decode doc = some K ↔
       ∃ cvs, tableRows doc = some cvs ∧ rowsKnown doc cvs = true ∧
         facetLe2 (rawCx doc.D cvs) = true ∧ checkL1 (builtCx doc cvs) = true ∧
-        K = builtCx doc cvs := by
+        noDupCells (builtCx doc cvs) = true ∧ K = builtCx doc cvs := by
   rw [decode_eq]
   cases h : tableRows doc with
   | none => simp
@@ -290,17 +305,17 @@ theorem decode_eq_some_iff (doc : Doc) (K : Cx) :
       constructor
       · intro hk
         cases hk
-        exact ⟨cvs, rfl, hc.1.1, hc.1.2, hc.2, rfl⟩
-      · rintro ⟨cvs', h', _, _, _, rfl⟩
+        exact ⟨cvs, rfl, hc.1.1.1, hc.1.1.2, hc.1.2, hc.2, rfl⟩
+      · rintro ⟨cvs', h', _, _, _, _, rfl⟩
         cases h'
         rfl
     · rename_i hc
       simp only [Bool.and_eq_true] at hc
       constructor
       · intro hk; cases hk
-      · rintro ⟨cvs', h', a, b, c, _⟩
+      · rintro ⟨cvs', h', a, b, c, d, _⟩
         cases h'
-        exact absurd ⟨⟨a, b⟩, c⟩ hc
+        exact absurd ⟨⟨⟨a, b⟩, c⟩, d⟩ hc
 
 theorem idVs_rawCells (cvs : List (Nat × List Nat)) : idVs (rawCells cvs) = cvs := by
   unfold idVs rawCells
